@@ -381,6 +381,11 @@ func describeFailure(p *Prog, cfg *PropConfig, r *SolveResult, root, repo, scrat
 		}
 	} else {
 		fmt.Fprintf(&sb, "\nno model: the solvers could not decide the obligation (undischarged, reported as a violation without a failing input)\nsolver output:\n%s\n", truncate(r.Output, 2000))
+		// the replay oracle has default inputs: it may still exhibit a failing input
+		if out, ok := tryReplay(p, cfg, r, root, repo, scratch); out != "" {
+			fmt.Fprintf(&sb, "\nreplay against the real code (default inputs of the oracle):\n%s\n", out)
+			confirmed = ok
+		}
 	}
 	return sb.String(), confirmed
 }
